@@ -37,6 +37,8 @@ def create(case, d):
     form = case['form']
     dtype = case.get('dtype')
     cl = case.get('chunklen')
+    if cl is not None and case.get('cltype'):
+        cl = np.dtype(case['cltype']).type(cl)      # the chunk length as a NumPy integer of a narrow type
     out = dict()
     ref = None
     images = None
